@@ -41,7 +41,7 @@ def plan(prop, tier, seed):
     q = tier == "quick"
     if prop == "C13":
         return [{"kind": "directed", "shard": 0}] + [{"kind": "life", "n": 45 if q else 1300, "shard": i} for i in range(14 if q else 16)]
-    return [{"kind": "pure", "n": 28 if q else 500, "shard": i} for i in range(15 if q else 16)]
+    return [{"kind": "pure", "n": 28 if q else 500, "shard": i} for i in range(15 if q else 16)] + [{"kind": "longout", "n": 1, "shard": 0}]
 
 
 def rand_cache(rng, data=True):
@@ -92,6 +92,16 @@ def make_sim(kind, cfg):
     # configuration): a defect of one construction path is that path's finding, not a lifecycle / purity difference
     via = "webgui" if h64([kind, cfg.get("hz", True), cfg.get("dcache"), cfg.get("icache")]) % 3 == 0 else "direct"
     sim = make_riscv("five" if kind == "five" else "single", hz=cfg.get("hz", True), dcache=cfg.get("dcache"), icache=cfg.get("icache"), via=via)
+    if cfg.get("short_regs"):
+        # the register file's documented 'test mode': a caller-supplied list (here shorter than 32 entries)
+        import fixedint
+        from architecture_simulator.simulation.riscv_simulation import RiscvSimulation
+        from architecture_simulator.uarch.riscv.riscv_architectural_state import RiscvArchitecturalState
+        from architecture_simulator.uarch.riscv.register_file import RegisterFile
+
+        pm = "".join(list("five_stage_pipeline" if kind == "five" else "single_stage_pipeline"))
+        st = RiscvArchitecturalState(pipeline_mode=pm, detect_data_hazards=cfg.get("hz", True), register_file=RegisterFile(registers=[fixedint.UInt32(0) for _ in range(cfg["short_regs"])]))
+        return RiscvSimulation(state=st, mode=pm)
     if cfg.get("swap_memories"):
         from architecture_simulator.uarch.memory.memory import Memory, AddressingType
         from architecture_simulator.uarch.memory.instruction_memory import InstructionMemory
@@ -749,6 +759,10 @@ def gen_pure_case(rng):
     if rng.random() < 0.4:
         text = ".data\nd0: .word 1, 2, 3\nd1: .string \"abc\"\n.text\n" + text
     case = {"kind": "pure", "sim": kind, "cfg": cfg, "text": text, "regs": regs, "max_steps": 250, "join_step": rng.choice([0, 1, 2, 3, 7, 10**6]), "seed": rng.getrandbits(30)}
+    if rng.random() < 0.08:
+        k_ = rng.choice([4, 6, 12, 18, 29])
+        case["cfg"] = {"hz": cfg["hz"], "dcache": None, "icache": None, "short_regs": k_}
+        case["regs"] = {r_: v_ for r_, v_ in regs.items() if int(r_) < k_}
     if rng.random() < 0.2:
         # another program is loaded into the same (inspected) simulation: at once, mid-run, or when the first is done
         case["reload"] = {"at": rng.choice([0, 1, 2, 5, 12, 10**6]), "text": asm_text(gen_rv_program(rng)[0])}
@@ -771,6 +785,17 @@ def run_shard(spec, res):
         for c in directed_life():
             guarded(run_case, prop, c, res)
             res.evaluations += 1
+        return
+    if spec["kind"] == "longout":
+        # ONE long run whose console output passes 64 KiB (and, in the thorough tier, 256 KiB) while the inspected twin
+        # keeps polling output, tables and statistics: what was printed stays printed
+        n_ = 1100 if spec["tier"] == "quick" else 4200
+        mode_ = ["single", "five"][spec["seed"] % 2]
+        text = ".data\nmsg: .string \"%s\"\n.text\nla a0, msg\nli a7, 4\nli t0, %d\nagain:\necall\naddi t0, t0, -1\nbne t0, zero, again\nli a7, 10\necall" % ("0123456789abcdef" * 4, n_)
+        case = {"kind": "pure", "sim": mode_, "cfg": {"hz": True, "dcache": None, "icache": None}, "text": text, "regs": {}, "max_steps": 30 * n_, "join_step": 10**6, "seed": 12345 + spec["seed"]}
+        guarded(run_case, prop, case, res)
+        res.evaluations += 1
+        res.count("long_output_runs")
         return
     for it in range(spec["n"]):
         case = (gen_interleave_case(rng) if rng.random() < 0.3 else gen_life_case(rng)) if spec["kind"] == "life" else gen_pure_case(rng)
